@@ -349,3 +349,28 @@ def system_traces(ctx, sources):
         if gl:
             ctx.sample({'trace_event': gl[0][1][-1]})
     return tot
+
+
+# --------------------------------------------------------------------------------------
+OMEGA_CFG = '\n'.join(['INIT TraceInit', 'NEXT TraceNext', 'VIEW TraceView', 'CHECK_DEADLOCK FALSE',
+                       'POSTCONDITION TraceAccepted', ''])
+
+
+def omega_traces(ctx, sources):
+    tot = 0
+    for name, evs, info in sources:
+        om = [e for e in evs if e['ev'] in ('omega.fromarray', 'omega.fromfile') and 'origin' in e]
+        groups, order = {}, []
+        for e in om:
+            o = (e.get('pid'), e['obj'])
+            if o not in groups:
+                groups[o] = []
+                order.append(o)
+            groups[o].append(e)
+        gl = [(o, groups[o]) for o in order]
+        a, b = validate(ctx, 'Trace_OmegaSource', OMEGA_CFG, gl, 'trace.OmegaSource.' + name)
+        tot += a
+        ctx.stage('trace.OmegaSource.' + name, sources=len(gl), sources_accepted=a, events_accepted=b, source=info)
+        if gl:
+            ctx.sample({'trace_event': gl[0][1][-1]})
+    return tot
